@@ -20,7 +20,7 @@
 From Coq Require Import List Arith Bool String ZArith Lia.
 From PV Require Import Base.Exn Base.Values Base.Ann Base.PyCall Model.CheckerCfg Model.Checker Model.PedanticCfg
   Model.Pedantic Model.GenWrapper Model.PedanticEval Spec.Conforms Spec.PedanticSpec
-  Proofs.PedanticBase Proofs.PyCallFacts Proofs.PedanticC03 Proofs.PedanticC04 Proofs.PedanticGen Proofs.PedanticChecker Proofs.PedanticWitness Gen.Pedantic Gen.CheckerTables.
+  Proofs.PedanticBase Proofs.PyCallFacts Proofs.PedanticC03 Proofs.PedanticC04 Proofs.PedanticGen Proofs.PedanticChecker Proofs.PedanticWitness Proofs.PedanticMut Gen.Pedantic Gen.CheckerTables.
 Import ListNotations.
 Close Scope Z_scope.
 Open Scope list_scope.
@@ -449,3 +449,37 @@ Proof.
   split; [|split; reflexivity]. guards.
   exists (bound_param cls_), [par a_ PosOrKw AInt None], K_cls. repeat split; reflexivity.
 Qed.
+
+(* ---------------- the NAME of a parameter is not an input of the verdict ---------------- *)
+(* def f(<n>: int) -> int called f(<n>=1): for EVERY name n other than self (context, func, call, value, key ... included: the
+   keyword travels through the **kwargs of every layer of the decorator) and every body with a conforming product the decorated
+   call is the undecorated call *)
+Theorem C04_parameter_name_irrelevant_closed : forall n bd,
+  n <> self_name ->
+  (forall b cons, c04_result_ok ctx0 (func "f" [par n PosOrKw AInt None] plain_text) (bd b cons) = true) ->
+  let f := func "f" [par n PosOrKw AInt None] plain_text in
+  let c := kwcall [] [(n, one)] in
+  run1 ctx0 f c bd = twin f c bd.
+Proof.
+  intros n bd Hn Hres f c.
+  destruct n as [|m]; [exfalso; apply Hn; reflexivity|].
+  apply C04_transparent_closed_partial.
+  - subst f c. guards.
+  - subst f c. unfold no_iterator_consumed, twin_binding, py_bind. cbn. rewrite ?Nat.eqb_refl. cbn. rewrite ?Nat.eqb_refl. reflexivity.
+  - subst f c. unfold c04_call_ok, c04_args_ok, twin_binding, py_bind. cbn. rewrite ?Nat.eqb_refl. cbn. rewrite ?Nat.eqb_refl. reflexivity.
+  - exact Hres.
+  - intros b cons. unfold result_intact. subst f. simpl f_ret. destruct (bd b cons) as [v|e]; [|reflexivity].
+    unfold consumes_model, drains. simpl drain. now rewrite Nat.ltb_irrefl.
+Qed.
+Print Assumptions C04_parameter_name_irrelevant_closed.
+
+(* ---------------- the body changes an argument in place and hands that very object back ---------------- *)
+(* def f(a: List[int]) -> List[int]: a.append(2); return a - called f(a=[1]): inside the guards of C04_transparent_closed_partial
+   (bodies are functions of the binding); the body runs once on the caller's object, the caller gets the changed object *)
+Example C04_changed_argument_transparent :
+  let c := kwcall [] [(a_, VList [one])] in
+  let bd := returns_changed f_list_to_list c a_ (append_to (VInt 2%Z)) in
+  kw_guards Gen.Pedantic.pedantic_cfg f_list_to_list c /\ c04_call_ok ctx0 f_list_to_list c = true
+  /\ run1 ctx0 f_list_to_list c bd = twin f_list_to_list c bd
+  /\ run1 ctx0 f_list_to_list c bd = (Ok (VList [one; VInt 2%Z]), [([(a_, BOne (SKw a_))], [])]).
+Proof. split; [guards|repeat split; reflexivity]. Qed.
